@@ -181,7 +181,9 @@ func layoutSynth(tier string) []dplan {
 	for _, s := range sh {
 		emit([]*migrate.Change{shapeChange(s, 0)}, "layout "+s.name+" alone")
 		if s.big && tier != "thorough" {
-			if strings.HasPrefix(s.name, "long6") && s.name != "long65536" {
+			switch s.name {
+			case "long65536", "long+short", "wide2000-indented", "long-comment", "long-cmd", "long-crlf":
+			default:
 				continue
 			}
 			// one placement in the middle
@@ -202,7 +204,7 @@ func layoutSynth(tier string) []dplan {
 			if i == j {
 				continue
 			}
-			if (a.big || b.big) && !(tier == "thorough" && (j == i+1 || i == j+1)) && !(j == i+1 && i%3 == 0) {
+			if (a.big || b.big) && !(tier == "thorough" && (j == i+1 || i == j+1)) && !(j == i+1 && i%5 == 0) {
 				continue
 			}
 			emit([]*migrate.Change{shapeChange(a, 1), shapeChange(b, 2)}, "layout pair "+a.name+","+b.name)
